@@ -572,6 +572,250 @@ func builderFinal(x *harness.X, r *rt.Result) {
 	}
 }
 
+// ---- every registration helper of both builders, all four kinds ----------------------------
+//
+// For one kind at a time: three registrations over {none, catch-all helper (XsHandlerFunc),
+// predicate helper (XHandlerFunc, id == "a"), handler object (XHandler, Match: id == "b")} on
+// the ClientBuilder or the ServerBuilder; the peer sends envelopes a, b, c of that kind.
+
+type bkState struct {
+	role, kind string
+	regs       []string
+	invs       map[string][]int
+	done       bool
+}
+
+type bkMsgH struct {
+	st *bkState
+	x  *harness.X
+	i  int
+}
+
+func (h *bkMsgH) Match(m *lime.Message) bool { return m.ID == "b" }
+func (h *bkMsgH) Handle(ctx context.Context, m *lime.Message, s lime.Sender) error {
+	h.st.hit(h.x, h.i, m.ID)
+	return nil
+}
+
+type bkNotH bkMsgH
+
+func (h *bkNotH) Match(n *lime.Notification) bool { return n.ID == "b" }
+func (h *bkNotH) Handle(ctx context.Context, n *lime.Notification) error {
+	h.st.hit(h.x, h.i, n.ID)
+	return nil
+}
+
+type bkReqH bkMsgH
+
+func (h *bkReqH) Match(c *lime.RequestCommand) bool { return c.ID == "b" }
+func (h *bkReqH) Handle(ctx context.Context, c *lime.RequestCommand, s lime.Sender) error {
+	h.st.hit(h.x, h.i, c.ID)
+	return nil
+}
+
+type bkRespH bkMsgH
+
+func (h *bkRespH) Match(c *lime.ResponseCommand) bool { return c.ID == "b" }
+func (h *bkRespH) Handle(ctx context.Context, c *lime.ResponseCommand, s lime.Sender) error {
+	h.st.hit(h.x, h.i, c.ID)
+	return nil
+}
+
+func (st *bkState) hit(x *harness.X, i int, id string) {
+	st.invs[id] = append(st.invs[id], i)
+	x.Obs("registration %d handled %s", i, id)
+}
+
+var bkAlpha = []string{"none", "all", "pred-a", "obj-b"}
+
+func builderKindsBody(role string) func(x *harness.X) {
+	return func(x *harness.X) {
+		lib.Reset()
+		st := &bkState{role: role, invs: map[string][]int{}}
+		x.Vars["bk"] = st
+		kindsOf := []string{"message", "notification", "request", "response"}
+		if role == "server" {
+			kindsOf = kindsOf[:3] // the high-level Client has no operation that sends a response command
+		}
+		st.kind = kindsOf[rt.Choose(len(kindsOf))]
+		for i := 0; i < 3; i++ {
+			st.regs = append(st.regs, bkAlpha[rt.Choose(len(bkAlpha))])
+		}
+		addr := lime.InProcessAddr("c20k")
+		sb := lime.NewServerBuilder().ListenInProcess(addr).EnableGuestAuthentication().ChannelBufferSize(1)
+		cb := lime.NewClientBuilder().UseInProcess(addr, 1).GuestAuthentication().ChannelBufferSize(1)
+		var srvChan *lime.ServerChannel
+		sb = sb.Established(func(id string, c *lime.ServerChannel) { srvChan = c })
+		onClient := role == "client"
+		for i, reg := range st.regs {
+			i := i
+			mf := func(ctx context.Context, m *lime.Message, s lime.Sender) error { st.hit(x, i, m.ID); return nil }
+			nf := func(ctx context.Context, n *lime.Notification) error { st.hit(x, i, n.ID); return nil }
+			qf := func(ctx context.Context, c *lime.RequestCommand, s lime.Sender) error { st.hit(x, i, c.ID); return nil }
+			pf := func(ctx context.Context, c *lime.ResponseCommand, s lime.Sender) error {
+				st.hit(x, i, c.ID)
+				return nil
+			}
+			switch st.kind + "/" + reg {
+			case "message/all":
+				if onClient {
+					cb = cb.MessagesHandlerFunc(mf)
+				} else {
+					sb = sb.MessagesHandlerFunc(mf)
+				}
+			case "message/pred-a":
+				pr := func(m *lime.Message) bool { return m.ID == "a" }
+				if onClient {
+					cb = cb.MessageHandlerFunc(pr, mf)
+				} else {
+					sb = sb.MessageHandlerFunc(pr, mf)
+				}
+			case "message/obj-b":
+				if onClient {
+					cb = cb.MessageHandler(&bkMsgH{st, x, i})
+				} else {
+					sb = sb.MessageHandler(&bkMsgH{st, x, i})
+				}
+			case "notification/all":
+				if onClient {
+					cb = cb.NotificationsHandlerFunc(nf)
+				} else {
+					sb = sb.NotificationsHandlerFunc(nf)
+				}
+			case "notification/pred-a":
+				pr := func(n *lime.Notification) bool { return n.ID == "a" }
+				if onClient {
+					cb = cb.NotificationHandlerFunc(pr, nf)
+				} else {
+					sb = sb.NotificationHandlerFunc(pr, nf)
+				}
+			case "notification/obj-b":
+				if onClient {
+					cb = cb.NotificationHandler(&bkNotH{st, x, i})
+				} else {
+					sb = sb.NotificationHandler(&bkNotH{st, x, i})
+				}
+			case "request/all":
+				if onClient {
+					cb = cb.RequestCommandsHandlerFunc(qf)
+				} else {
+					sb = sb.RequestCommandsHandlerFunc(qf)
+				}
+			case "request/pred-a":
+				pr := func(c *lime.RequestCommand) bool { return c.ID == "a" }
+				if onClient {
+					cb = cb.RequestCommandHandlerFunc(pr, qf)
+				} else {
+					sb = sb.RequestCommandHandlerFunc(pr, qf)
+				}
+			case "request/obj-b":
+				if onClient {
+					cb = cb.RequestCommandHandler(&bkReqH{st, x, i})
+				} else {
+					sb = sb.RequestCommandHandler(&bkReqH{st, x, i})
+				}
+			case "response/all":
+				if onClient {
+					cb = cb.ResponseCommandsHandlerFunc(pf)
+				} else {
+					sb = sb.ResponseCommandsHandlerFunc(pf)
+				}
+			case "response/pred-a":
+				pr := func(c *lime.ResponseCommand) bool { return c.ID == "a" }
+				if onClient {
+					cb = cb.ResponseCommandHandlerFunc(pr, pf)
+				} else {
+					sb = sb.ResponseCommandHandlerFunc(pr, pf)
+				}
+			case "response/obj-b":
+				if onClient {
+					cb = cb.ResponseCommandHandler(&bkRespH{st, x, i})
+				} else {
+					sb = sb.ResponseCommandHandler(&bkRespH{st, x, i})
+				}
+			}
+		}
+		srv := sb.Build()
+		go func() { _ = srv.ListenAndServe() }()
+		rt.Quiesce()
+		client := cb.Build()
+		ctx, cancel := context.WithTimeout(context.Background(), 30*time.Second)
+		defer cancel()
+		if err := client.Establish(ctx); err != nil {
+			x.Failf("setup", "builder client could not establish: %v", err)
+			rt.Stop()
+		}
+		rt.Quiesce()
+		if onClient && srvChan == nil {
+			x.Failf("setup", "no server channel")
+			rt.Stop()
+		}
+		rt.BeginExplore()
+		for _, id := range []string{"a", "b", "c"} {
+			var err error
+			switch st.kind {
+			case "message":
+				if onClient {
+					err = srvChan.SendMessage(ctx, lib.Msg(id, "x"))
+				} else {
+					err = client.SendMessage(ctx, lib.Msg(id, "x"))
+				}
+			case "notification":
+				if onClient {
+					err = srvChan.SendNotification(ctx, lib.Not(id, lime.NotificationEventReceived))
+				} else {
+					err = client.SendNotification(ctx, lib.Not(id, lime.NotificationEventReceived))
+				}
+			case "request":
+				if onClient {
+					err = srvChan.SendRequestCommand(ctx, lib.Req(id, "/x"))
+				} else {
+					err = client.SendRequestCommand(ctx, lib.Req(id, "/x"))
+				}
+			case "response":
+				if onClient {
+					err = srvChan.SendResponseCommand(ctx, lib.Resp(id))
+				}
+			}
+			if err != nil {
+				x.Obs("send %s failed", id)
+			}
+			rt.Quiesce()
+		}
+		rt.EndExplore()
+		st.done = true
+		rt.Stop()
+	}
+}
+
+func builderKindsFinal(x *harness.X, r *rt.Result) {
+	if r.Crash != "" {
+		x.Failf("crash:"+r.CrashSite, "panic: %s", firstLine(r.Crash))
+		return
+	}
+	st, _ := x.Vars["bk"].(*bkState)
+	if st == nil || !st.done {
+		return
+	}
+	hist := fmt.Sprintf("[%s builder, %s handlers registered in order %v; %s]", st.role, st.kind, st.regs, strings.Join(x.Log(), " | "))
+	for _, id := range []string{"a", "b", "c"} {
+		var want []string
+		for i, reg := range st.regs {
+			if reg == "all" || reg == "pred-a" && id == "a" || reg == "obj-b" && id == "b" {
+				want = []string{fmt.Sprint(i)}
+				break
+			}
+		}
+		var got []string
+		for _, i := range st.invs[id] {
+			got = append(got, fmt.Sprint(i))
+		}
+		if strings.Join(got, ",") != strings.Join(want, ",") {
+			x.Failf("builder-kinds:wrong-handler:"+st.role+":"+st.kind, "%s %q: registrations invoked %v, the earliest registered one that accepts it is %v %s", st.kind, id, got, want, hist)
+		}
+	}
+}
+
 func firstLine(s string) string { return strings.SplitN(s, "\n", 2)[0] }
 
 func main() {
@@ -582,7 +826,7 @@ func main() {
 	harness.Main(harness.Check{
 		Property: "C20",
 		Level:    "model_checking",
-		Rule:     "handler tables (per kind 0..3 handlers x predicate{nil,true,false,id==a} x outcome{ok,error}; mixed tables with <=1 handler per kind) x inbound sequences (length<=3 over kind x id{a,b}) enumerated as data choices; plus tables registered through ClientBuilder and ServerBuilder: every sequence of three registrations over {none, catch-all, get-/ping predicate, /x predicate, AutoReplyPings} with the peer sending get /ping, get /x, get /ping and the responses observed; schedules with <= bound deviations inside the dispatch window; distinct outcome = distinct observation log",
+		Rule:     "handler tables (per kind 0..3 handlers x predicate{nil,true,false,id==a} x outcome{ok,error}; mixed tables with <=1 handler per kind) x inbound sequences (length<=3 over kind x id{a,b}) enumerated as data choices; plus tables registered through ClientBuilder and ServerBuilder: every sequence of three registrations over {none, catch-all, get-/ping predicate, /x predicate, AutoReplyPings} with the peer sending get /ping, get /x, get /ping and the responses observed, and for each of the four kinds every sequence of three registrations over {none, catch-all helper, predicate helper, handler object} made through each builder's own helper methods with the peer sending ids a, b, c; schedules with <= bound deviations inside the dispatch window; distinct outcome = distinct observation log",
 		Assume:   []string{"in-process transport only (dispatch logic is transport independent)", "sequentially consistent scheduler; code between visible operations is atomic"},
 		Scenarios: []harness.Scenario{
 			mk("server/one-kind/h2/len2", serverBody("one", 2, 2), 0, -1),
@@ -590,6 +834,8 @@ func main() {
 			mk("client/one-kind/h2/len2", clientBody("one", 2, 2), 0, -1),
 			{Name: "builders/client", Opt: opt, Quick: 0, Thorough: 0, Body: builderBody("client"), Final: builderFinal},
 			{Name: "builders/server", Opt: opt, Quick: 0, Thorough: 0, Body: builderBody("server"), Final: builderFinal},
+			{Name: "builders/all-kinds/client", Opt: opt, Quick: 0, Thorough: 0, Body: builderKindsBody("client"), Final: builderKindsFinal},
+			{Name: "builders/all-kinds/server", Opt: opt, Quick: 0, Thorough: 0, Body: builderKindsBody("server"), Final: builderKindsFinal},
 			mk("server/one-kind/h3/len2", serverBody("one", 3, 2), -1, 0),
 			mk("server/one-kind/h2/len3", serverBody("one", 2, 3), -1, 0),
 			mk("server/mixed4/len3", serverBody("mixed4", 1, 3), -1, 0),
